@@ -4969,7 +4969,10 @@ class Entity(object, metaclass=EntityMeta):
                       'Value of %s.%s for %s was updated outside of current transaction (was: %r, now: %r)'
                       % (obj.__class__.__name__, attr.name, obj, old_dbval, new_dbval))
 
-            if attr.reverse: attr.db_update_reverse(obj, old_dbval, new_dbval)
+            if attr.reverse and not (wbits & bit and old_dbval is NOT_LOADED):
+                # a reference that was assigned in this session before it was ever loaded: the in-memory
+                # collections already reflect the assignment, the stored value must not re-link the object
+                attr.db_update_reverse(obj, old_dbval, new_dbval)
             obj._dbvals_[attr] = new_dbval
             if wbits & bit:
                 del new_vals[attr]
